@@ -84,3 +84,32 @@ def multiclass_obligations(repo):
         out.append(ob('BaseCarver.__init__#frame.fresh_list.%s' % attr, fresh, 'self.%s must not alias the argument' % attr))
     for o in out: o['time'] = (time.time() - t0) / max(1, len(out))
     return out
+
+
+def refit_guard_obligations(repo):
+    """C19, second sentence: a second `fit` of a fitted object is refused BEFORE any write to self.  Decided on the program text: the first
+    statement of each public fit is `assert not self.is_fitted`; BinaryCarver / ContinuousCarver.fit may first call `self._prepare_data`
+    (whose own writes are obligations of engine R) and must then delegate to BaseCarver.fit."""
+    out = []
+    src = lambda f: ast.parse(open(repo.rstrip('/') + '/' + f).read())
+    sites = [('AutoCarver/carvers/base_carver.py', 'BaseCarver'), ('AutoCarver/carvers/multiclass_carver.py', 'MulticlassCarver'),
+             ('AutoCarver/discretizers/discretizers.py', 'Discretizer'), ('AutoCarver/discretizers/discretizers.py', 'QualitativeDiscretizer'),
+             ('AutoCarver/discretizers/discretizers.py', 'QuantitativeDiscretizer'), ('AutoCarver/discretizers/utils/qualitative_discretizers.py', 'CategoricalDiscretizer'),
+             ('AutoCarver/discretizers/utils/qualitative_discretizers.py', 'OrdinalDiscretizer'), ('AutoCarver/discretizers/utils/qualitative_discretizers.py', 'ChainedDiscretizer'),
+             ('AutoCarver/discretizers/utils/quantitative_discretizers.py', 'ContinuousDiscretizer'), ('AutoCarver/discretizers/utils/type_discretizers.py', 'StringDiscretizer')]
+    def is_guard(st):
+        return isinstance(st, ast.Assert) and isinstance(st.test, ast.UnaryOp) and isinstance(st.test.op, ast.Not) and _is_self_attr(st.test.operand, 'is_fitted')
+    for f, cls in sites:
+        fn = _func(src(f), cls, 'fit')
+        if fn is None: out.append(ob('%s.fit#raises.AssertionError.refit_guard_is_first_statement' % cls, False, 'fit not found')); continue
+        body = [s for s in fn.body if not (isinstance(s, ast.Expr) and isinstance(s.value, ast.Constant))]
+        # statements before the guard may only be output (print) under `if self.verbose`
+        k = 0
+        while k < len(body) and isinstance(body[k], ast.If) and ast.unparse(body[k].test) == 'self.verbose' and all(isinstance(x, ast.Expr) and isinstance(x.value, ast.Call) and getattr(x.value.func, 'id', '') == 'print' for x in body[k].body): k += 1
+        out.append(ob('%s.fit#raises.AssertionError.refit_guard_is_first_statement' % cls, k < len(body) and is_guard(body[k]), 'first statement: %s' % (ast.unparse(body[k])[:80] if k < len(body) else '<none>')))
+    for f, cls in (('AutoCarver/carvers/binary_carver.py', 'BinaryCarver'), ('AutoCarver/carvers/continuous_carver.py', 'ContinuousCarver')):
+        fn = _func(src(f), cls, 'fit')
+        body = [s for s in fn.body if not (isinstance(s, ast.Expr) and isinstance(s.value, ast.Constant))] if fn else []
+        ok = len(body) >= 2 and isinstance(body[0], ast.Assign) and 'self._prepare_data(' in ast.unparse(body[0].value) and 'super().fit(' in ast.unparse(body[1])
+        out.append(ob('%s.fit#call.super.fit.reached_before_any_write' % cls, ok, ' ; '.join(ast.unparse(s)[:60] for s in body[:2])))
+    return out
